@@ -1,7 +1,7 @@
 (* C08 — tests run only on their own worker and are told where their setup lives. *)
 From Coq Require Import List ZArith NArith Bool Arith.
 Import ListNotations.
-From I2N Require Import Model.Retry Model.Traverse Model.TraverseRun Proofs.TraverseProofs.
+From I2N Require Import Model.Retry Model.Traverse Model.TraverseRun Proofs.TraverseProofs Proofs.TraverseInv.
 Local Open Scope nat_scope.
 
 (* a positive run decision is only ever taken for a node of the deciding worker's own copy of the
@@ -30,3 +30,10 @@ Theorem C08_picks_own_parents : forall g s i w p s',
   (own g w p = true \/ n_flat (nd g p) = true).
 Proof. exact pick_parent_available. Qed.
 Print Assumptions C08_picks_own_parents.
+
+(* for EVERY graph, initial pool population and schedule: each execution the traversal starts is
+   started by a worker whose id occurs in the node's name (the code's ownership test) *)
+Theorem C08_own_worker : forall g p sched evs w i u pre l,
+  In evs (snd (run_schedule g (init_state g p) sched)) -> In (EStart w i u pre l) evs -> own g w i = true.
+Proof. intros g p sched evs w i u pre l H1 H2. destruct (all_starts_ok g p sched evs w i u pre l H1 H2) as [H _]. exact H. Qed.
+Print Assumptions C08_own_worker.
